@@ -35,6 +35,7 @@ class Ctx:
         self.rtol = rtol; self.atol = atol
         self.numdim = numdim or 4
         self._patched = None
+        self.pre = None
         self.begin_path()
         self.functions = set()
         self.assumptions = set()
